@@ -9,6 +9,14 @@ META = dict(
 
 MUT = 24   # max single-field mutants per valid proof in the quick tier (0 = all)
 
+# Which of the repairs fixes/C05-*.patch /repo is expected to contain.  "" = take whatever the probe of
+# the real code finds (the defects of the unrepaired parts then surface as KNOWN-FINDING lines).
+# After a fix: commit is applied, add its flag here (e.g. "strict=1 dup=1 succ=1"): a code base that
+# no longer shows the repaired behaviour is then reported as VIOLATION (signature proof-repair-regressed)
+# in addition to the re-appearing findings.  Flags: strict (rangeproof-strict-nodes), dup
+# (multistore-dupnames), succ (absence-proof-successor-key); write all three, 0 or 1 each.
+EXPECT = ""
+
 
 def run(ctx):
     ctx.lean_proofs("Props.C05")
@@ -21,13 +29,13 @@ def run(ctx):
     ctx.trust("SHA-256 has no collision among the preimages of one run (driver stand-in hash)")
     ctx.assume("proofs reach the verifier as decoded structures (amino decoding of ProofOp.Data is not part of the model)")
     if ctx.thorough:
-        ctx.stream("proofs", "c05", "Driver/C05.lean", n=60000, args=["-mut", 0], timeout=3000, drv_timeout=3000)
+        ctx.stream("proofs", "c05", "Driver/C05.lean", n=60000, args=["-mut", 0, "-expect", EXPECT], timeout=3000, drv_timeout=3000)
         for s in range(2):
-            ctx.stream(f"proofs-s{s}", "c05", "Driver/C05.lean", n=30000, seed=ctx.seed * 1000 + 51 + s, args=["-mut", 0], timeout=3000, drv_timeout=3000)
+            ctx.stream(f"proofs-s{s}", "c05", "Driver/C05.lean", n=30000, seed=ctx.seed * 1000 + 51 + s, args=["-mut", 0, "-expect", EXPECT], timeout=3000, drv_timeout=3000)
     else:
-        ctx.stream("proofs", "c05", "Driver/C05.lean", n=3500, args=["-mut", MUT])
+        ctx.stream("proofs", "c05", "Driver/C05.lean", n=3500, args=["-mut", MUT, "-expect", EXPECT])
 
 
 def search(ctx):
     for s in range(2):
-        ctx.stream(f"search{s}", "c05", "Driver/C05.lean", n=8000, seed=ctx.seed * 7919 + s, args=["-mut", 0], count=False, timeout=3000, drv_timeout=3000)
+        ctx.stream(f"search{s}", "c05", "Driver/C05.lean", n=8000, seed=ctx.seed * 7919 + s, args=["-mut", 0, "-expect", EXPECT], count=False, timeout=3000, drv_timeout=3000)
